@@ -60,6 +60,6 @@ theorem queued_unique {s : Sys} (hi : NodeInv s) {p p' : Pid} {a a' : Bool} {n n
   have : n.hid = n'.hid := by rw [hh] at hh'; exact Option.some.inj hh'
   exact hi.oneRunner p p' a a' n n' hp hp' this
 
-end Jade.Sys
-
 #realize_aux Jade
+
+end Jade.Sys
